@@ -332,6 +332,34 @@ def _short(x):
     return s if len(s) < 80 else s[:77] + "..."
 
 
+def freeze_heap(p):
+    """Two-phase frame: everything allocated on this path SO FAR (e.g. by a decorator factory: closure state, handlers, caches)
+    becomes pre-existing state from here on - its current attribute values / container contents are the `old` values that the
+    frame obligations compare against at the exit.  Used by contracts whose target is `factory(...)(call)`: what the factory built
+    must be the same after the call as before it (no state carried from one call to the next)."""
+    from .heap import DictObj, ListObj
+
+    seen = set()
+
+    def walk(v):
+        if id(v) in seen:
+            return
+        seen.add(id(v))
+        if isinstance(v, (ListObj, DictObj)):
+            v.pre = True
+            for x in (v.values() if isinstance(v, dict) else v):
+                walk(x)
+        elif isinstance(v, Obj):
+            for x in list(v.attrs.values()):
+                walk(x)
+
+    for o in list(p.objects):
+        o.pre = True
+        o.attrs0 = dict(o.attrs)
+        o.writes = []
+        walk(o)
+
+
 def check_frame(c: Contract, I: Interp, p, args):
     """Every attribute of every pre-existing object equals its entry value (except `modifies`)."""
     allowed = set()
